@@ -1,0 +1,9 @@
+//go:build verif
+// +build verif
+
+package network
+
+// SimNetwork, when non-nil, is returned by GetNetInstance (verification builds only).
+var SimNetwork Network
+
+func simNet() Network { return SimNetwork }
